@@ -151,7 +151,7 @@ func ruleC01Head(c *Ctx) {
 	if f := c.Anchor(rule, fDD+"lookup"); f != nil {
 		R := NewRenderer(f)
 		fm := CallsTo(f, "github.com/frostschutz/go-fibmap.Fiemap")
-		ok := len(fm) == 1 && strings.Contains(callRender(R, fm[0]), "invoke.Fd($0.files[+phi{(+len($0.files) -1) | (+… -1)}])")
+		ok := len(fm) == 1 && strings.Contains(callRender(R, fm[0]), "invoke.Fd($0.files[-* +len($0.files) -1])")
 		if ok {
 			c.OK(rule, FnName(f)+" | probe starts at the head and descends", c.P.InstrPos(fm[0]), "for i := len(d.files)-1; i > 0; i--", false)
 		} else {
